@@ -304,7 +304,10 @@ def search(rec, ctx):
                 first = next(ln for ln in c["block"] if ln.strip() and not ln.strip().startswith("#"))
                 ind = first[: len(first) - len(first.lstrip())]
                 plain = "with M:\n" + "".join((ind + "pass\n") if ln.strip() else "\n" for ln in c["block"]) + "\n" * c["blanks"]
-        check(rec, {"kind": "then-error", "macro_src": msrc, "plain_src": plain, "mkind": mkind, "follow": rnd.choice(LATER_ERRORS)})
+        follow = rnd.choice(LATER_ERRORS)
+        if mkind == "with" and follow[:1] in " \t":
+            return  # an indented line after a with! block is part of the block's text, whatever it says
+        check(rec, {"kind": "then-error", "macro_src": msrc, "plain_src": plain, "mkind": mkind, "follow": follow})
 
     drive(st.randoms(use_true_random=False), then_error, ctx.budget(3000, 40000), ctx.hseed("then-error"))
 
